@@ -114,6 +114,14 @@ static RunResult run_one(const Plan &plan, bool want_choices)
     }
     const sim::Shm *s = sim::shm();
     r.v = judge(plan, s, ex, g_rundir);
+    if (getenv("TSIM_DUMP_EVENTS")) {
+        // inspection aid for a replayed plan: the recorded event log (harness and scheduler events)
+        for (uint32_t i = 0; i < s->nevents && i < sim::MAX_EVENTS; i++) {
+            const sim::Event &e = s->events[i];
+            fprintf(stderr, "ev %u seq=%u T%d kind=%u a=%lld b=%lld c=%lld s=%s\n", i, e.seq, e.tid, e.kind, (long long)e.a,
+                    (long long)e.b, (long long)e.c, e.s_len ? sim::ev_str(s, e).c_str() : "");
+        }
+    }
     r.hash = s->trace_hash;
     r.proj = s->proj_hash;
     r.ndec = s->ndecisions;
